@@ -795,6 +795,10 @@ impl SurfGen {
                 } else {
                     ST::Var(r.pick(scope).clone())
                 }
+            } else if r.chance(1, 2) {
+                // a non-empty list written in tail position: its elements are leaves (in patterns: pattern variables, which may
+                // re-use a name of the enclosing scope — seeded change C13-m: names in such a tail got no binding of their own)
+                ST::List((0..1 + r.below(2)).map(|_| leaf(r)).collect())
             } else {
                 leaf(r)
             };
